@@ -271,13 +271,15 @@ def build_commands(run, prop, E):
             if results is None:
                 ob("no_result_fields", z3.BoolVal(params is None))
             elif results[0] == "nomtxpower":
-                ok = params is not None and len(params) == 1 and isinstance(params[0], FmtStr) and params[0].fmt == "int"
-                ob("result_is_nominal_tx_power", z3.And(z3.BoolVal(bool(ok)), Z(params[0].args[0]) == st["tx_power_base"]) if ok else z3.BoolVal(False))
+                pcs = models.str_pieces(params[0]) if params is not None and len(params) == 1 else None
+                ok = pcs is not None and len(pcs) == 1 and isinstance(pcs[0], FmtStr) and pcs[0].fmt == "int"
+                ob("result_is_nominal_tx_power", z3.And(z3.BoolVal(bool(ok)), Z(pcs[0].args[0]) == st["tx_power_base"]) if ok else z3.BoolVal(False))
             elif results[0] == "measure":
                 meas = p.ghost.get("measured", [])
-                ok = params is not None and len(params) == 1 and isinstance(params[0], FmtStr) and params[0].fmt == "int" and len(meas) == 1
+                pcs = models.str_pieces(params[0]) if params is not None and len(params) == 1 else None
+                ok = pcs is not None and len(pcs) == 1 and isinstance(pcs[0], FmtStr) and pcs[0].fmt == "int" and len(meas) == 1
                 ob("result_is_measured_dbm_of_requested_frequency",
-                   z3.And(Z(meas[0][0]) == results[1], Z(params[0].args[0]) == meas[0][1]) if ok else z3.BoolVal(False))
+                   z3.And(Z(meas[0][0]) == results[1], Z(pcs[0].args[0]) == meas[0][1]) if ok else z3.BoolVal(False))
             # power commands
             calls = p.ghost.get("handler", [])
             pw = updates.get("__power")
@@ -325,7 +327,38 @@ def build_commands(run, prop, E):
 # ------------------------------------------------------------------ send_response
 
 def flatten(s):
-    """Structured string -> list of pieces (str | token objects); None when the shape is not a flat concatenation/join."""
+    """Structured string -> canonical list of pieces (literal text split at single spaces kept as the code under contract wrote them is
+    NOT assumed: literals are merged and re-split on the command grammar by the caller).  See models.str_pieces."""
+    r = models.str_pieces(s)
+    if r is not None:
+        return r
+    return _flatten_old(s)
+
+
+def tokens_of(pieces):
+    """the space-separated tokens of a canonical piece list: literal text is split at spaces, atoms (formatted integers, token objects) are
+    tokens of their own; a token made of literal text AND an atom comes back as a tuple"""
+    toks, cur = [], []
+
+    def flush():
+        if cur:
+            toks.append(cur[0] if len(cur) == 1 else tuple(cur))
+            cur.clear()
+    for p_ in pieces or []:
+        if isinstance(p_, str):
+            parts = p_.split(" ")
+            for i, t in enumerate(parts):
+                if i:
+                    flush()
+                if t:
+                    cur.append(t)
+        else:
+            cur.append(p_)
+    flush()
+    return toks
+
+
+def _flatten_old(s):
     if isinstance(s, str):
         return [s]
     if isinstance(s, FmtStr):
@@ -382,6 +415,13 @@ def build_send_response(run, prop, E):
                 if par:
                     want += [" ", par[0]]
                 want.append("\0")
+                merged = []
+                for w in want:          # same canonical form as models.str_pieces: adjacent literals merged
+                    if isinstance(w, str) and merged and isinstance(merged[-1], str):
+                        merged[-1] += w
+                    else:
+                        merged.append(w)
+                want = merged
                 good = pieces is not None and len(pieces) == len(want)
                 if good:
                     for x, w in zip(pieces, want):
